@@ -2,7 +2,7 @@
 from .. import lib, runner
 
 PROP = "C15"
-THEOREMS = ["Sram.ack_exact", "Sram.ack_single", "Sram.write_masked", "Sram.mem_is_abs_partial_dw", "Sram.read_your_writes_partial_dw", "Sram.readonly_immutable_partial_dw", "Sram.c15_read_stored"]
+THEOREMS = ["Sram.ack_exact", "Sram.ack_single", "Sram.write_masked", "Sram.mem_is_abs_partial_dw", "Sram.read_your_writes_partial_dw", "Sram.readonly_immutable_partial_dw", "Sram.c15_read_stored", "Sram.mem_is_abs_image", "Sram.read_your_writes_image", "Sram.readonly_immutable_image"]
 IMPORTS = ["SocVerif.Props.C15"]
 
 
